@@ -37,7 +37,27 @@ func init() {
 // runLockRules is shared by C20 / C14 / C17 / C18 with different scopes.
 func runLockRules(c *Ctx, prop string, scope []string, withCaptures bool) {
 	if c.Tier == "thorough" && prop == "C20" {
-		scope = []string{"pkg"}
+		// whole-module sweep: observations outside the property's packages are
+		// reported as notes (they are not part of what C20 states), never as violations
+		inner := append([]string{}, scope...)
+		sweep := NewCtx(c.P, prop, c.Tier)
+		runLockRulesP(sweep, prop, func(fn *ssa.Function) bool { return IsProd(fn) && !inScope(fn, inner) }, func(owner string) bool {
+			ownerPkg := "pkg/" + owner[:strings.LastIndex(owner, ".")]
+			for _, pre := range inner {
+				if ownerPkg == pre || strings.HasPrefix(ownerPkg, pre+"/") {
+					return false
+				}
+			}
+			return true
+		}, withCaptures)
+		n := 0
+		for _, o := range sweep.Obs {
+			n++
+			if o.Status == "VIOLATED" {
+				c.Notes = append(c.Notes, "out-of-scope observation (thorough sweep, informational): ["+o.Rule+"] "+o.Construct+" @"+o.Site)
+			}
+		}
+		c.Count("out-of-scope obligations examined by the thorough sweep", n)
 	}
 	runLockRulesP(c, prop, func(fn *ssa.Function) bool { return inScope(fn, scope) }, func(owner string) bool {
 		ownerPkg := "pkg/" + owner[:strings.LastIndex(owner, ".")]
